@@ -31,7 +31,8 @@ LEVEL_TEXT = ("Machine-checked: (1) compile_encodes_partial: for every well-form
               "type pairs for distinct objects; (3) axes_spec_partial: on every document table satisfying the decidable "
               "well-formedness predicate, each find* walk/chain of XPath.cpp returns exactly the nodes of its axis in proximity "
               "order (13 axes); predicates_spec_partial / predicates_literal_spec: the predicate loop and the numeric-literal "
-              "shortcut equal XPath 2.4 filtering. The models are tied to the working tree by two translators and by replaying "
+              "shortcut equal XPath 2.4 filtering; recycle_contract: every memoised conversion of a recyclable XObject is reset "
+              "unconditionally on the factory's recycle path (table regenerated from the source). The models are tied to the working tree by two translators and by replaying "
               "generated expressions, token soups, comparisons and evaluations on generated documents on the real library and on "
               "the compiled model; every implementation reply is also compared with the denotational specification evalS.")
 LEVEL_NOTE = ("Trusted: Lean kernel; axioms propext/Classical.choice/Quot.sound only; the hand transcription of the anchored C++ "
@@ -66,6 +67,7 @@ THEOREMS = [
     "XalanModel.Props.C02.axes_spec_following_partial",
     "XalanModel.Props.C02.axes_spec_preceding_partial",
     "XalanModel.Props.C02.axes_spec_partial",
+    "XalanModel.Props.C02.recycle_contract",
 ]
 
 CORPUS_EXPR = [
@@ -122,6 +124,7 @@ def run(ctx):
     ctx.build("hooks")
     ctx.translate("c02_opcodes")
     ctx.translate("c02_flags")
+    ctx.translate("c02_recycle")
     ctx.lean("XalanModel.Props.C02", THEOREMS, extra_targets=["xm_c02"])
     model = ctx.exe("xm_c02")
     harness = common.build_harness("c02_xpath", ["c02_xpath.cpp"], flavor="hooks")
@@ -447,10 +450,18 @@ FIXED_DOC = ('<r xmlns:set="http://exslt.org/sets" xmlns:x="http://xml.apache.or
               ("e", "c", "", 15)])
 
 
-def classify_eval(text, iv, mv, sv):
+def classify_eval(text, iv, mv, sv, xml=""):
     """None, or (key, what) when the implementation's value differs from the specification's"""
     if iv == sv:
         return None
+    if mv == sv and "substring-after(" in text and iv != "err":
+        return ("eval.wrong-type[substring-after-empty-pattern]: %s" % text,
+                "value %s, the specification gives %s (FunctionSubstringAfter returns its first argument object unconverted when "
+                "the second string is empty, so the result - or an enclosing comparison - sees a node-set / boolean / number)" % (iv, sv))
+    if mv == sv and "substring(" in text and (re.search(r"\d{10,}", text + xml) or "vbig" in text) and iv != "err":
+        return ("eval.substring[huge-position]: %s" % text,
+                "value %s, XPath 4.2 gives %s (a start / length beyond the range of size_type is converted before it is compared "
+                "with the string length)" % (iv, sv))
     if iv == "err" and sv != "err":
         cls = "root-before-union" if re.search(r"(^|[(\[|,])\s*/\s*\|", text) else "other"
         return ("eval.rejects[%s]: %s" % (cls, text), "expression rejected / failed (specification value %s)" % sv)
@@ -494,8 +505,10 @@ def eval_session_lines(xml, table, exprs_ctx):
 def eval_stream(ctx, r, harness, model, work):
     nsess, nexpr, depth = (60, 60, 2) if not ctx.thorough else (1200, 100, 3)
     npos = 30 if not ctx.thorough else 60
+    nrecycle = 40 if not ctx.thorough else 80
     lines = []
     meta = []
+    sess_starts = []
     for si in range(nsess):
         xml, table = g.gen_doc2(r)
         ec = []
@@ -516,8 +529,18 @@ def eval_stream(ctx, r, harness, model, work):
             c = r.below(len(table))
             ec.append((text, c, term, xml, table))
         sl = eval_session_lines(xml, table, [(t, c) for (t, c, _, _, _) in ec])
+        sess_starts.append(len(lines))
         lines += sl
         meta += [None] * (len(sl) - len(ec)) + ec
+        # recycling phase in the same session (same XObjectFactory): rebinding releases objects, later values land in them
+        for step in g.g_recycle_phase(r, nrecycle):
+            if step[0] == "var":
+                lines.append("var %s x %s" % (step[1], hx(step[2])))
+                meta.append(None)
+            else:
+                c = r.below(len(table))
+                lines.append("eval %d %s" % (c, hx(step[1])))
+                meta.append((step[1], c, None, xml, table))
     il, ml, irc, mrc, ierr, merr, req = run_requests(harness, model, lines, work, "eval")
     disagree = []
     nerr = 0
@@ -545,17 +568,24 @@ def eval_stream(ctx, r, harness, model, work):
                  cls="eval:" + kind)
         if "!order" in iv and not (" -1" in iv and re.search(r"(@|attribute::)\s*node\(\)", text)):
             ctx.fail("eval.order: %s" % text, "node-set not delivered in document order: %s" % iv, {"doc": xml, "context": c, "expr": text})
-        bad = classify_eval(text, iv_c, mv, sv)
+        bad = classify_eval(text, iv_c, mv, sv, xml)
         if bad:
             stext, sc = text, c
             if term is not None and bad[0].startswith("eval.wrong"):
                 stext = shrink_eval(harness, model, work, xml, table, term, c, bad[0].split(":")[0])
             key = bad[0].split(":")[0] + ": " + stext
+            # the value may depend on what the session evaluated before (recycled XObjects, caches): the replay is the
+            # session up to and including the failing request
+            start = max([x for x in sess_starts if x <= i] or [0])
+            history = [lines[start]] + lines[max(start + 1, i - 600):i]
             ctx.fail(key, bad[1] + " [doc %s, context node %d]" % (xml, c),
-                     {"lines": eval_session_lines(xml, table, [(stext, c)]), "doc": xml, "context": c, "expr": stext})
+                     {"lines": eval_session_lines(xml, table, [(stext, c)]), "session_lines": history + [lines[i]],
+                      "doc": xml, "context": c, "expr": stext})
         if iv_c != mv and not (bad and (bad[0].startswith("eval.rejects[root-before-union]") or bad[0].startswith("eval.attribute-node-test")
                                         or bad[0].startswith("eval.substring[negative-infinity-start]")
-                                        or bad[0].startswith("eval.lang[not-nearest]"))):
+                                        or bad[0].startswith("eval.lang[not-nearest]")
+                                        or bad[0].startswith("eval.wrong-type[substring-after-empty-pattern]")
+                                        or bad[0].startswith("eval.substring[huge-position]"))):
             disagree.append({"doc": xml, "context": c, "expr": text, "impl": iv, "model": mv, "spec": sv})
     ctx.extra["eval_impl_errors"] = nerr
     ctx.oblige("correspondence: XPath::execute (type, value, node ids in delivered order) = Lean model evaluator on every "
@@ -599,7 +629,7 @@ def replay(ctx, path):
     harness = common.build_harness("c02_xpath", ["c02_xpath.cpp"], flavor="hooks")
     work = os.path.join(common.CACHE, "work")
     os.makedirs(work, exist_ok=True)
-    lines = inp.get("lines") or (["compile " + hx(inp["expr"])] if "expr" in inp else [])
+    lines = inp.get("session_lines") or inp.get("lines") or (["compile " + hx(inp["expr"])] if "expr" in inp else [])
     il, ml, *_ = run_requests(harness, model, lines, work, "replay")
     for ln, a, b in zip(lines, il, ml):
         print(ln, "\n   impl :", a, "\n   model:", b)
